@@ -297,6 +297,20 @@ def _setter_arg(fn, name, method, under, vars_):
     return leaf.Leaf(name, e, tr.vars, list(under), [], fn, _S)
 
 
+# ------------------------------------------------------------------------------------------------ initial moles (tidy.cpp)
+def gen_tidy():
+    fn = leaf.load_function(os.path.join(vlib.REPO, "src/phreeqcpp/tidy.cpp"), "tidy_gas_phase")
+    PRD, VOL, TMP = "gas_phase_ptr->Get_gas_comps()[j].Get_p_read()", "gas_phase_ptr->Get_volume()", "gas_phase_ptr->Get_temperature()"
+    GP = "gas_phase_ptr->Get_type() == GP_PRESSURE"
+    L = [mk(fn, "td_moles_ideal_fp", [PRD, VOL, TMP], lhs="moles", kind="init", under=[GP, "!PR"]),
+         mk(fn, "td_moles_ideal_fv", [PRD, VOL, TMP], lhs="moles", kind="init", under=["!(" + GP + ")", "!PR"]),
+         mk(fn, "td_P_inc_fp", [PRD], increment=True, lhs="P", under=[GP]),
+         mk(fn, "td_P_inc_fv", [PRD], increment=True, lhs="P", under=["!(" + GP + ")"]),
+         mk(fn, "td_x", ["gc[j_PR].Get_p_read()", "P"], lhs="phase_ptr->moles_x"),
+         _setter_arg(fn, "td_moles_pr", "Set_moles", ["PR&&P>0", "phase_ptr", "!(gc[j_PR].Get_p_read()==0)"], ["phase_ptr->moles_x", VOL, "V_m"])]
+    return L
+
+
 # ------------------------------------------------------------------------------------------------ mb_gases
 def gen_mb():
     fn = leaf.load_function(os.path.join(vlib.REPO, "src/phreeqcpp/model.cpp"), "mb_gases")
@@ -372,7 +386,7 @@ def _generate():
     Lcg = gen_pressures()
     extra_mb = gen_mb()
     Lb, extra_b, rows = gen_bip()
-    leaves = Lpr + Lcg + Lb
+    leaves = Lpr + Lcg + gen_tidy() + Lb
     text = leaf.emit_coq(leaves, header="C19: calc_PR (prep.cpp, gases.cpp), calc_gas_pressures, mb_gases (model.cpp), "
                          "calc_fixed_volume_gas_pressures, calc_gas_binary_parameter (gases.cpp)", extra="")
     text = text.replace("From IPV Require Import Base.RExpr.", "From IPV Require Import Base.RExpr C19.BExpr.")
